@@ -61,17 +61,17 @@ Definition check_C06_text (c : tcase) : nat :=
   match c with
   | CNewick cfg isroot t out back =>
       let o := opt_of cfg in
-      let inside := newick_alphabet o isroot t in
+      let strict := newick_alphabet o isroot t in         (* export and round-trip clause claimed *)
+      let inside := newick_alphabet_ext o isroot t in     (* round-trip clause claimed (float lengths) *)
       let m_out := nw_write cfg isroot t in
-      if unmodelled m_out then F_SKIP else
+      let out_dis := negb (unmodelled m_out) && negb (agree_str m_out out) in
       match out with
       | None =>
-          flag (negb (agree_str m_out out)) F_DISAGREE + (if inside then F_PROPFAIL else F_SKIP)
+          flag out_dis F_DISAGREE + (if inside then F_PROPFAIL else F_SKIP)
       | Some s =>
           let m_back := nw_parse (la_of o) (nw_prefix cfg) s in
-          let dis := negb (agree_str m_out out)
-                     || (negb (unmodelled m_back) && negb (agree_tree m_back back)) in
-          let ok := prop_newick_export o isroot t s
+          let dis := out_dis || (negb (unmodelled m_back) && negb (agree_tree m_back back)) in
+          let ok := (negb strict || prop_newick_export o isroot t s)
                     && match back with
                        | Some l => match decode l with
                                    | Some bt => prop_newick_back o isroot t bt
